@@ -543,6 +543,8 @@ def run_X7(chk):
                     f"rejected step is repeated with a request smaller than the space already built -- the call never returns")
 
 MUTANTS = [
+    ('happy breakdown evolves the whole interval', 'yastn/krylov/_krylov.py', '        if happy:\n            tau = t_out - t_now\n', '        if happy:\n            tau = t_out\n', 'X9'),
+    ('lin_solver rhs is |b|', 'yastn/krylov/_krylov.py', "    q0 = b - f(v0)\n    normv = q0.norm()\n    if normv == 0:\n        raise YastnError('Initial vector v0 of lin_solver should be nonzero.')\n    Q = [q0 / normv]", "    normv = b.norm()\n    if normv == 0:\n        raise YastnError('Initial vector v0 of lin_solver should be nonzero.')\n    q0 = b - f(v0)\n    Q = [q0 / q0.norm()]", 'X2'),
     ("Krylov space clamped by stored size", "yastn/krylov/_krylov.py", "    ncv_max = 30  # Krylov space parameters; its true maximal dimension shows up as happy breakdown", "    ncv_max = min([30, v.size])", "X6"),
     ("initial request not bounded by ncv_max", "yastn/krylov/_krylov.py", "    ncv = min(max(1, ncv), ncv_max)\n", "    ncv = max(1, ncv)\n", "X7"),
     ("Arnoldi: ket/bra swapped", "yastn/tensor/_krylov.py", "                H[(i, j)] = V[i].vdot(w)", "                H[(i, j)] = w.vdot(V[i])", "X1"),
